@@ -93,7 +93,7 @@ def _gen_group(rng, terms, later, prefix, depth):
             blocks.append(_gen_group(rng, terms, later, prefix + (f,), depth + 1))
         else:
             tail = tuple(rng.choice(later) if later and rng.random() < 0.4 else rng.choice(terms)
-                         for _ in range(rng.randint(0, 2)))
+                         for _ in range(rng.choice([0, 1, 1, 2, 2, 3])))
             blocks.append([prefix + (f,) + tail])
     if rng.random() < 0.3:
         blocks.insert(rng.randint(0, len(blocks)), [prefix])
@@ -138,6 +138,53 @@ def gen_prefix_group_grammar(rng, terms, start='E', max_nts=3):
             alts.append(())
         alts = [a for i, a in enumerate(alts) if i == 0 or a != alts[i - 1]]
         prods[nt] = alts
+    return prods
+
+
+def gen_prefix_divergence_grammar(rng, terms, start='E'):
+    """three to five alternatives behind one first symbol; two of them share a longer prefix, the others leave
+    it after the first symbol; every alternative is longer than the shortest common prefix of any two; the order
+    of the alternatives is random (a b c | a b d | a x y, a b c | a x y | a b d, a x y | a b c | a b d, ...).
+    Conflict-free after left factorization: the continuations start with different terminals."""
+    ts = list(terms)
+    rng.shuffle(ts)
+    a, b = ts[0], ts[1 % len(ts)]
+    rest = ts[2:] or ts
+    inner = rng.sample(rest, min(len(rest), rng.randint(2, 3)))
+    outer = [t for t in ts if t not in (b,)][:] 
+    outer = rng.sample([t for t in ts if t != b], min(len([t for t in ts if t != b]), rng.randint(1, 2)))
+
+    def tail():
+        return tuple(rng.choice(ts) for _ in range(rng.randint(0, 2)))
+    alts = [(a, b, c) + tail() for c in inner] + [(a, x) + (rng.choice(ts),) + tail() for x in outer]
+    rng.shuffle(alts)
+    prods = {start: alts}
+    if rng.random() < 0.4:
+        # the same group one level down
+        other = 'P'
+        prods[other] = prods[start]
+        prods[start] = [(rng.choice(ts), other), (other,)] if rng.random() < 0.5 else [(other, rng.choice(ts))]
+    return prods
+
+
+def gen_nullable_led_grammar(rng, terms, start='E'):
+    """several alternatives of the start symbol begin with (different) nullable symbols, some of which have a
+    longer non-empty alternative that can fail after matching something: the parser has to give up collected
+    EMPTY children when it switches to the next alternative.  E -> N M a | Q c d ; N, M, Q nullable; M -> c g | ()"""
+    names = [n for n in NT_NAMES if n != start]
+    rng.shuffle(names)
+    nullables = names[:rng.randint(2, 4)]
+    prods = {}
+    alts = []
+    for _ in range(rng.randint(2, 3)):
+        lead = [rng.choice(nullables) for _ in range(rng.randint(1, 2))]
+        tail = [rng.choice(terms) for _ in range(rng.randint(1, 3))]
+        alts.append(tuple(lead + tail))
+    alts = [a for i, a in enumerate(alts) if a not in alts[:i]]
+    prods[start] = alts
+    for n in nullables:
+        non_empty = tuple(rng.choice(terms) for _ in range(rng.randint(1, 2)))
+        prods[n] = [non_empty, ()] if rng.random() < 0.7 else [(), non_empty]
     return prods
 
 
